@@ -140,6 +140,18 @@ CHECKS = {
              "location). Defaults/skip values are decided by correspondence + Spec.v monitor on all delete/null/corrupt subsets.",
         ref="5 C08", technique="Coq: Leaves invariant over the entry loop + explicit run of the missing loop; in-Coq differential check + Spec.v monitor",
         note="Trusted: as C01. Partial: default/skip values flow has no dedicated theorem (correspondence + spec monitor). No axioms."),
+    "C15": dict(
+        text="Proof: (c15_spec_order_insensitive) for payloads v, v' related by permuting the members of any objects at any depth (veq: closure of member permutation under nesting in objects and "
+             "sequences) where within each object keys are distinct and no two distinct keys parse to the same map key (wfv; e.g. \"1\" and \"01\" for an integer-keyed map, where the real code "
+             "lets the last member win), every target type and location get the same value (Leibniz-equal: HashMap/BTreeMap/serde_json objects are modelled as sorted finite maps), the same reports up to "
+             "order (actual values embedded in reports compared up to veq) and the same user-function invocations up to order; proved by induction on the permutation derivation and on the type, "
+             "with order-insensitivity lemmas for the field machinery (at most one member fills a field), Map::remove of the tag, sorted-map insertion commutation, serde_json objects; "
+             "(c15_deserialize_order_insensitive) transferred to the interpreter under a keep-going error type through the C02 refinement theorem. Correspondence: every catalogue type x payloads x "
+             "member permutations at every depth (all for small objects, random for larger) through the order-preserving value source; implementation results compared pairwise in Coq.",
+        ref="5 C15", technique="Coq: congruence/permutation proof over the declarative specification (induction on the permutation derivation x induction on types, permutation-modulo-relation lemmas, "
+                               "sorted-insertion commutation) + transfer by refinement; in-Coq pairwise differential check on permuted payloads",
+        note="Trusted: as C02. Hypothesis wfv excludes duplicate keys and parsed-key collisions (documented in DESIGN.md: order genuinely matters there). The theorem about the interpreter is for the "
+             "keep-going error type (the one the property names); fail-fast runs are covered by the correspondence only. No axioms."),
     "C16": dict(
         text="Proof: (c16_never_accepted) every derive input that the property lists as rejectable (DeriveSpec.rejectable: empty/unknown/malformed attribute, invalid rename_all, a single-valued "
              "attribute twice within one attribute or across several, from with try_from, tag on a struct, try_from with rename_all/tag/deny_unknown_fields - at container, variant and field level - "
